@@ -118,7 +118,7 @@ func TestC19(t *testing.T) {
 	defer r.Close(t)
 	r.Rule("histories: every sequence of Set/Append/Add over 3 tags (nil tag, en, fr; and, one step shorter, the empty tag, the nil tag, en) x 2 texts up to the length bound, then random longer ones over 5 tags (incl. the empty one) x 4 texts; " +
 		"after every step Count, First, the tag sequence and Get(tag) for every tag are compared with a reference list of (tag,text) entries. " +
-		"equality: all ordered pairs of lists without repeated tags of length <= 3, Equals(a,b) iff same set of pairs. " +
+		"equality: all ordered pairs of lists without repeated tags of length <= 3 over (nil tag, en, fr), and of length <= 2 over (en, EN, nil tag, empty tag): Equals(a,b) iff same set of pairs. " +
 		"non-trivial history = contains a Set on a present tag after >= 2 entries; non-trivial pair = both lists have >= 2 entries; distinct by op sequence / pair")
 
 	tags3 := []ap.LangRef{ap.NilLangRef, "en", "fr"}
@@ -197,12 +197,13 @@ func TestC19(t *testing.T) {
 		type nl = ap.NaturalLanguageValues
 		var lists []nl
 		var build func(cur nl, used map[ap.LangRef]bool)
+		eqTags, eqLen := tags3, 3
 		build = func(cur nl, used map[ap.LangRef]bool) {
 			lists = append(lists, append(nl(nil), cur...))
-			if len(cur) == 3 {
+			if len(cur) == eqLen {
 				return
 			}
-			for _, tg := range tags3 {
+			for _, tg := range eqTags {
 				if used[tg] {
 					continue
 				}
@@ -218,6 +219,12 @@ func TestC19(t *testing.T) {
 			}
 		}
 		build(nil, map[ap.LangRef]bool{})
+		// tags are compared as written: a tag in another letter case, and the empty tag next to the nil tag, are other keys
+		eqTags, eqLen = []ap.LangRef{"en", "EN", ap.NilLangRef, ""}, 2
+		nFirst := len(lists)
+		build(nil, map[ap.LangRef]bool{})
+		caseLists := lists[nFirst:]
+		lists = lists[:nFirst]
 		setOf := func(l nl) string {
 			var ps []string
 			for _, e := range l {
@@ -227,9 +234,22 @@ func TestC19(t *testing.T) {
 			return strings.Join(ps, ",")
 		}
 		n := 0
-		for i, a := range lists {
-			for j, b := range lists {
-				cell := fmt.Sprintf("%v == %v", a, b)
+		type pair struct{ a, b nl }
+		var pairs []pair
+		for _, a := range lists {
+			for _, b := range lists {
+				pairs = append(pairs, pair{a, b})
+			}
+		}
+		for _, a := range caseLists {
+			for _, b := range caseLists {
+				pairs = append(pairs, pair{a, b})
+			}
+		}
+		for i, pr := range pairs {
+			for j := 0; j < 1; j++ {
+				a, b := pr.a, pr.b
+				cell := fmt.Sprintf("%q == %q", a, b)
 				if !r.WantCell(cell) {
 					continue
 				}
@@ -256,7 +276,7 @@ func TestC19(t *testing.T) {
 				}
 			}
 		}
-		r.Cells(len(lists)*len(lists), n)
+		r.Cells(len(pairs), n)
 		r.Exhaustive("equality", !r.Replaying())
 	}
 
